@@ -276,3 +276,31 @@ for _h, _c in (("handle_ERROR", of.ofp_error), ("handle_PACKET_IN", of.ofp_packe
                ("handle_ECHO_REPLY", of.ofp_echo_reply), ("handle_GET_CONFIG_REPLY", of.ofp_get_config_reply),
                ("handle_HELLO", of.ofp_hello)):
   _mk_frame(_h, _xid_msg(_c))
+
+
+# ---------------------------------------------------------------- every part reaches the reassembly, whoever listens to the raw event
+# (added 2026-09-25 after seeded change C17_10 moved the call under the 'not halted' branch: a nexus-level RawStatsReply listener
+# that halts its event then starved the reassembly - no aggregated event was ever raised)
+
+@unit(P, target=CN + "DefaultOpenFlowHandlers.handle_STATS_REPLY")
+def every_statistics_part_reaches_the_reassembly_even_if_the_raw_event_is_halted(b):
+  con, nexus, cs, halted = event_targets(b)
+  msg = b.new(of.ofp_stats_reply)
+  got = []
+  if b.mode == "sym":
+    def ghost(I, st, f, args, kws):
+      st.ghost["reassembly"] = tuple(st.ghost.get("reassembly", ())) + (args[1],)
+    cs = dict(cs)
+    cs[CN + "Connection._incoming_stats_reply"] = CallSpec("contract", ghost=ghost, envelope="one reassembly step (unit one_part_of_a_statistics_reply)")
+  else:
+    con._incoming_stats_reply = lambda m: got.append(m)
+  def parts():
+    return list(G.get("reassembly") or ()) if b.mode == "sym" else list(got)
+  def run(con, msg):
+    of_01.DefaultOpenFlowHandlers.handle_STATS_REPLY(con, msg)
+    return None
+  return Case(run, [con, msg], calls=cs, raises={}, ensures={
+    "the_part_is_handed_to_the_reassembly_exactly_once": lambda res: len(parts()) == 1 and parts()[0] is msg,
+    "the_raw_event_goes_to_the_nexus_then_unless_halted_to_the_connection":
+      lambda res: delivered(b, con, nexus, halted, of_01.RawStatsReply, lambda a: a[0] is con and a[1] is msg),
+  })
